@@ -298,6 +298,11 @@ class Interp:
             return K({"sorted": "list"}.get(name, name), empty=v.empty if isinstance(v, K) else None, tag="fresh")
         if name == "str" and len(e.args) == 1:
             return S((("str", norm(e.args[0])),))
+        if self.call_hook is not None:
+            # an unknown call: its arguments are still evaluated, so that calls nested in them are seen by the hook
+            for a in list(e.args) + [k.value for k in e.keywords]:
+                if any(isinstance(x, ast.Call) for x in ast.walk(a)):
+                    self.ev(a, env)
         return TOP
 
     # ------------------------------------------------------------ tests
